@@ -454,6 +454,13 @@ func (c *suComp) Run(args []string) string {
 	case "pregate":
 		c.pregate[decStr(args[1])] = true
 		return "ok"
+	case "churn":
+		t, r := 6, 20
+		if len(args) > 2 {
+			t, _ = strconv.Atoi(args[1])
+			r, _ = strconv.Atoi(args[2])
+		}
+		return suChurn(t, r)
 	case "subreset":
 		// `subreset <id> <acl> <req> <target> <now>`: Cache.Reset(target) with a subscription attached in
 		// the middle of it — from inside the cache's client callback, right after the first whole-subtree
